@@ -147,6 +147,20 @@ CLAIMED["C18"] = dict(
   note="Token expiry (minutes granularity) is not driven; some RPCs without observable effect are judged by status only.",
   technique="TLC exhaustive policy/state-machine check + full RPC matrix on the real server + TLC trace validation")
 
+CLAIMED["C07"] = dict(
+  category="model_checking",
+  text="spec/Replication.tla relates what the primary and each replica precommitted, durably hold and committed under each id (a replica precommits under id n only the "
+       "primary's tx n; commits n only after the primary; with synchronous replication the primary commits n only after the required number of replicas durably hold it). TLC "
+       "checks spec/MCReplication.tla exhaustively (2 replicas, network that duplicates / reorders / alters exports, replica discards, 0/1/2 sync acks) and finds the counterexample "
+       "of the variant in which header alterations cannot be authenticated. harness/cmd/c07 drives a real primary store and 1-2 real replica stores like pkg/replication does "
+       "(ExportTx, ReplicateTx, allowance from durable acks, AllowCommitUpto after the primary committed) with duplicated, out-of-order and single-bit-altered deliveries, replica "
+       "restarts and discards, header v0/v1, embedded values, integrity-check skipping; the merged hook trace of all stores is validated against Replication.tla "
+       "(spec/TraceReplication.tla, deviations collected so that the rest of a run is still examined), every store's own events against Store.tla, and at the end replica and "
+       "primary are compared tx by tx and replica dual proofs are verified against primary states.",
+  design_ref="DESIGN.md §4 C07",
+  note="Store level only: the gRPC replicator of pkg/replication and the pkg/database wrappers (ExportTxByID validations, replica state bookkeeping) are emulated by the driver.",
+  technique="TLC exhaustive model checking of the replication relation + TLC trace validation of real primary/replica executions")
+
 REASONS = {}
 
 
